@@ -745,7 +745,7 @@ ND_FORMS = {   # name -> list of (leaf key, batch shape) and dimension d
     "u1": ([(None, ())], 1), "u2": ([(None, ())], 2), "u3": ([(None, ())], 3),
     "b22": ([(None, (2,))], 2), "b31": ([(None, (3,))], 1), "tree": ([("a", ()), ("b", (1,))], 2),
 }
-ND_NAMES = sorted(ND_FORMS)
+ND_NAMES = sorted(ND_FORMS) + ["b22", "tree", "u2"]      # weight towards d >= 2 and batches
 NDV = 6       # numbers per vector block in the recipe
 NDM = 3       # matrices per recipe (3 x 3 each)
 
@@ -790,8 +790,12 @@ def nd_block_values(rec, form, vec_key, mat_key):
         A = np.asarray(rec[mat_key][i % NDM], dtype=np.float64)[:d, :d]
         if rec.get("diag_mat"):
             A = np.diag(np.diag(A))
-        # distinct diagonal offsets keep the spectrum non-degenerate for A = 0 (see KNOWN_PROBES)
-        vals.append((v, A @ A.T + np.diag([0.5, 1.0, 1.5][:d])))
+        if rec.get("degenerate"):
+            # repeated eigenvalue: d transformation is NaN there on the unrepaired tree (see KNOWN_PROBES)
+            vals.append((v, (0.5 + A[0, 0] ** 2) * np.eye(d)))
+        else:
+            # distinct diagonal offsets keep the spectrum non-degenerate for A = 0
+            vals.append((v, A @ A.T + np.diag([0.5, 1.0, 1.5][:d])))
     return vals, d
 
 
@@ -899,32 +903,37 @@ def check_ndvcgaussian(rec):
     # d = m +- sqrt(d) Cov^{1/2} e_k are exact for the quadratic dependence on the residual.  Matrix functions
     # are differentiable along symmetric directions only: all comparisons use the columns of Emb / Vcom.
     gap = min([1.0] + [float(np.min(np.diff(np.linalg.eigvalsh(X)))) for _, X in v1 if d > 1])
+    gap = gap if gap > 1e-9 else 1.0          # exactly repeated eigenvalues: nothing is ill-conditioned
     tcl = "transformation_checked"
-    if gap < 1e-3:
-        tcl = "transformation_skipped_degenerate_spectrum"     # known finding: AD of logm is NaN / inaccurate there
-    else:
-        x0 = rflat(p1)
-        EJJ = 0
-        first = True
-        for k in range(d):
-            for sgn in (1.0, -1.0):
-                vals = []
-                for mv, X in v1:
-                    cov = X if covariance else np.linalg.inv(X)
-                    w_, U = np.linalg.eigh(cov)
-                    root = U @ np.diag(np.sqrt(w_)) @ U.T
-                    vals.append(mv + sgn * np.sqrt(d) * root[:, k])
-                lhk = jft.NDVariableCovarianceGaussian(J(data_tree(vals)), covariance=covariance)
-                Jk = jac_ad(lhk.transformation, p1, x0)
-                if first:
-                    close(Jk @ Emb, jac_fd(lhk.transformation, p1, x0, dirs=Emb), "transformation_jacobian_ad_vs_fd",
-                          tol=1e-6, scale=amax(Jk) / min(gap, 1.0))
-                    first = False
-                EJJ = EJJ + Jk.T @ Jk / (2 * d)
+    x0 = rflat(p1)
+    EJJ = 0
+    first = True
+    for k in range(d):
+        for sgn in (1.0, -1.0):
+            vals = []
+            for mv, X in v1:
+                cov = X if covariance else np.linalg.inv(X)
+                w_, U = np.linalg.eigh(cov)
+                root = U @ np.diag(np.sqrt(w_)) @ U.T
+                vals.append(mv + sgn * np.sqrt(d) * root[:, k])
+            lhk = jft.NDVariableCovarianceGaussian(J(data_tree(vals)), covariance=covariance)
+            Jk = jac_ad(lhk.transformation, p1, x0)
+            if first:
+                if rec.get("degenerate") and d > 1 and not np.all(np.isfinite(Jk)):
+                    # known finding (reported by the probe): excluded region, continue with the other relations
+                    tcl = "transformation_skipped_degenerate_spectrum"
+                    break
+                close(Jk @ Emb, jac_fd(lhk.transformation, p1, x0, dirs=Emb), "transformation_jacobian_ad_vs_fd",
+                      tol=1e-6, scale=amax(Jk) / gap)
+                first = False
+            EJJ = EJJ + Jk.T @ Jk / (2 * d)
+        if first:
+            break
+    if not first:
         close(Vcom.T @ EJJ @ Vcom, Vcom.T @ m.M @ Vcom, "expected_transformation_pullback_vs_metric", tol=1e-9,
-              scale=amax(m.M) / min(gap, 1.0))
+              scale=amax(m.M) / gap)
     cl = ["form_" + form, "covariance" if covariance else "precision", "primals_" + rec["ptype"], "d%d" % d,
-          "diag_matrix" if rec.get("diag_mat") else "full_matrix", tcl]
+          "diag_matrix" if rec.get("diag_mat") else "full_matrix", tcl] + (["degenerate_spectrum"] if rec.get("degenerate") else [])
     return dict(nontrivial=form in ("b22", "b31", "tree"), classes=cl)
 
 
@@ -933,7 +942,7 @@ def ndvcgaussian_recipes(draw, tier):
     mats = st.lists(S.mat(3, 3, S.dyadic(-1.0, 1.0, 4)), min_size=NDM, max_size=NDM)
     return dict(form=draw(st.sampled_from(ND_NAMES)), covariance=draw(st.booleans()),
                 ptype=draw(st.sampled_from(["tuple", "vector"])), diag_mat=draw(st.sampled_from([False, False, True])),
-                d=draw(nums(NDV)), m=draw(nums(NDV)), m2=draw(nums(NDV)), A=draw(mats), A2=draw(mats),
+                degenerate=draw(st.sampled_from([False] * 5 + [True])), d=draw(nums(NDV)), m=draw(nums(NDV)), m2=draw(nums(NDV)), A=draw(mats), A2=draw(mats),
                 v=draw(nums(14)))
 
 
@@ -960,7 +969,19 @@ def probe_nd_transformation_noncommuting():
     return f"off-diagonal symmetric tangent: |E[J^T J] - M| = {err:.3e}" if err > 1e-8 else None
 
 
-KNOWN_PROBES = {"nd_transformation_noncommuting": probe_nd_transformation_noncommuting}
+def probe_nd_transformation_nan_degenerate():
+    """known finding: forward-mode derivative of NDVariableCovarianceGaussian.transformation is NaN where the
+    covariance has a repeated eigenvalue (logm is differentiated through eigh; sqrtm has a custom rule)"""
+    import jax
+    jax.config.update("jax_enable_x64", True)
+    p = (np.zeros(2), np.eye(2))
+    lh = jft.NDVariableCovarianceGaussian(J(np.zeros(2)))
+    Jk = jac_ad(lh.transformation, p, rflat(p))
+    return None if np.all(np.isfinite(Jk)) else "d transformation / d covariance is NaN at covariance = identity"
+
+
+KNOWN_PROBES = {"nd_transformation_noncommuting": probe_nd_transformation_noncommuting,
+                "nd_transformation_nan_degenerate": probe_nd_transformation_nan_degenerate}
 
 
 # ================================================================== compositions: heads and forward models
